@@ -406,7 +406,7 @@ def _qr_theta_Y0(
         Y0.legs[1] = Y0.legs[1].to_LegCharge()
         Y0.ireplace_label('(p1.vR)', 'vR')
         if any(old_qtotal_R != 0):
-            Y0.gauge_total_charge('vR', old_qtotal_L)
+            Y0 = Y0.gauge_total_charge('vR', old_qtotal_L)  # (returns a copy)
         vR_old = old_bond_leg
         if not vR_old.is_blocked():
             vR_old = vR_old.sort()[1]
@@ -418,7 +418,7 @@ def _qr_theta_Y0(
         Y0.legs[0] = Y0.legs[0].to_LegCharge()
         Y0.ireplace_label('(vL.p0)', 'vL')
         if any(old_qtotal_L != 0):
-            Y0.gauge_total_charge('vL', old_qtotal_R)
+            Y0 = Y0.gauge_total_charge('vL', old_qtotal_R)  # (returns a copy)
         vL_old = old_bond_leg
         if not vL_old.is_blocked():
             vL_old = vL_old.sort()[1]
